@@ -85,6 +85,7 @@ struct SimThread {
     uint64_t last_run_step = 0;
     uint32_t access_countdown = 0;            // flavour B: instrumented accesses until the next decision point
     int create_fail_n = 0, create_fail_err = 0; // armed per calling thread
+    int mutex_init_fail_n = 0, mutex_init_fail_err = 0;
     int aff_fail_n = 0, aff_fail_err = 0;
     int attr_fail_which = 0, attr_fail_err = 0;
 };
@@ -729,6 +730,7 @@ Stats end() {
 }
 
 void set_create_fail(int nth, int err) { if (tl_self) { tl_self->create_fail_n = nth; tl_self->create_fail_err = err; } }
+void set_mutex_init_fail(int nth, int err) { if (tl_self) { tl_self->mutex_init_fail_n = nth; tl_self->mutex_init_fail_err = err; } }
 void set_affinity_fail(int nth, int err) { if (tl_self) { tl_self->aff_fail_n = nth; tl_self->aff_fail_err = err; } }
 void set_attr_fail(int which, int err) { if (tl_self) { tl_self->attr_fail_which = which; tl_self->attr_fail_err = err; } }
 int backtrace_mode() { return G.run_active ? G.backtrace_mode : 0; }
@@ -981,6 +983,12 @@ void sim_atomic_point(const volatile void *addr, int kind) {
 }
 
 int __wrap_pthread_mutex_init(pthread_mutex_t *m, const pthread_mutexattr_t *a) {
+    if (sim::active() && tl_self && tl_self->mutex_init_fail_n > 0 && --tl_self->mutex_init_fail_n == 0) {
+        // pthread_mutex_init may fail with EAGAIN / ENOMEM (POSIX): the object stays uninitialised
+        fault_fired("pthread_mutex_init_fail");
+        log_event(PK_FAULT, m, 400 + tl_self->mutex_init_fail_err);
+        return tl_self->mutex_init_fail_err;
+    }
     int rc = __real_pthread_mutex_init(m, a);
     if (sim::active()) {
         // a fresh object at this address: forget any stale entry
